@@ -674,6 +674,13 @@ func execC11(t *testing.T, raw json.RawMessage) *sim.Outcome {
 		}
 		o.Recorded = mustJSON(withChoices(p, s.Choices))
 		o.Fatal = true
+		if s.TimeStall {
+			// (only a real timer or deadline of the code under test could still complete the pending operations: a
+			// scheduled run has no clock, so nothing is concluded about completion)
+			o.Probe("run_left_waiting_for_real_time")
+			o.Signature = "aborted:time_stall"
+			return o
+		}
 		o.Fail("C11.completes", what, rs.count(), "%s: %d of %d operations completed; blocked: %v", what, rs.count(), total+2, s.Stuck)
 		o.Signature = "aborted:" + what
 		return o
